@@ -53,7 +53,9 @@ def addmm_forward(a:np.ndarray, b:np.ndarray, c:np.ndarray):
     return a + (b @ c)
 
 def addmm_backward(grad:np.ndarray, a:np.ndarray, b:np.ndarray, c:np.ndarray):
-    grad_a, grad_mm = add_backward(grad, a.shape, (b.shape[0], c.shape[1],))
+    # shape of b @ c: broadcast batch dimensions, then the rows of b and the columns of c (a 1-d operand contributes no such axis)
+    mm_shape = np.broadcast_shapes(b.shape[:-2], c.shape[:-2]) + b.shape[-2:-1] + (c.shape[-1:] if c.ndim > 1 else ())
+    grad_a, grad_mm = add_backward(grad, a.shape, mm_shape)
     grad_b, grad_c = matmul_backward(grad_mm, b, c)
     return grad_a, grad_b, grad_c
 
